@@ -154,9 +154,11 @@ async def streaming_block(
     try:
         yield operator_pause_waiter
     finally:
-        with contextlib.suppress(asyncio.CancelledError):
-            operator_pause_waiter.cancel()
-            await operator_pause_waiter
+        # NB: not `suppress(CancelledError)` around `await operator_pause_waiter`: it would also
+        # swallow the cancellation of this very task (the watcher) if it arrives at this moment,
+        # and the watcher would go on watching instead of stopping.
+        operator_pause_waiter.cancel()
+        await asyncio.wait({operator_pause_waiter})
 
 
 async def continuous_watch(
